@@ -6,6 +6,7 @@ import SeataModel.Driver.C12
 import SeataModel.Driver.C13
 import SeataModel.Driver.C04
 import SeataModel.Driver.C07
+import SeataModel.Driver.C19
 
 open Seata.Driver
 
@@ -15,6 +16,7 @@ def dispatch (prop : String) (ws : List String) : String :=
   | "C13" => C13.handle ws
   | "C04" => C04.handle ws
   | "C07" => C07.handle ws
+  | "C19" => C19.handle ws
   | _ => "bad-prop"
 
 partial def loop (hin : IO.FS.Stream) (hout : IO.FS.Stream) : IO Unit := do
